@@ -51,8 +51,21 @@ func safeMarshal(t enumType, v uint64) (text B, isErr, pan bool) {
 			_ = t.String(o)
 		}
 	}
-	return B(append([]byte{}, b...)), err != nil, false
+	text = B(append([]byte{}, b...))
+	// ... and the caller may do with it what it likes (a scratch buffer it appends to, an in-place edit): the next
+	// conversion of the same value gives the same text again
+	for i := range b {
+		b[i] = '#'
+	}
+	b2, err2 := t.Marshal(v)
+	if err == nil && (err2 != nil || string(b2) != string(text)) {
+		marshalAgainDiffers = true
+	}
+	return text, err != nil, false
 }
+
+// marshalAgainDiffers: converting the same value again, after the caller overwrote the first text, gave another text
+var marshalAgainDiffers bool
 
 func safeUnmarshal(t enumType, text []byte) (v uint64, isErr, pan bool) {
 	defer func() {
@@ -65,7 +78,9 @@ func safeUnmarshal(t enumType, text []byte) (v uint64, isErr, pan bool) {
 }
 
 func probeEnum(t enumType, v uint64, of []int) M {
+	marshalAgainDiffers = false
 	text, merr, p1 := safeMarshal(t, v)
+	againDiffers := marshalAgainDiffers
 	enumDirty = 0
 	back, uerr, p2 := safeUnmarshal(t, text)
 	// the same text parsed into a variable that already holds another value (a reused message struct)
@@ -81,7 +96,7 @@ func probeEnum(t enumType, v uint64, of []int) M {
 		of = []int{}
 	}
 	return M{"v": le(v, 8), "text": text, "merr": merr, "back": le(back, 8), "uerr": uerr, "panic": p1 || p2 || p3, "str": B(str), "of": of,
-		"back2": le(back2, 8), "uerr2": uerr2}
+		"back2": le(back2, 8), "uerr2": uerr2, "again_differs": againDiffers}
 }
 
 // cmdEnums: C19 (ENUM records) and the enum-constant table for C17 (XENUM records).
